@@ -25,6 +25,7 @@ class World:
         self.chan = {x: {} for x in 'cs'}
         self.tasks = {}          # name -> asyncio.Task
         self.closed_by_app = set()   # (side, ch) on which close()/abort() was called
+        self.api_errors = []         # (api, exception) raised synchronously by an application call
         self.close_seen = set()      # (side, ch) that received the peer's CLOSE
         self.sent_opens = []     # channel ids in the order OPEN was sent (= arrives)
         w = self
@@ -96,23 +97,23 @@ class World:
                     command='x', encoding=None))
             p.call(start)
         elif k == 'weof':
-            p.call(self.chan[lbl[1]][lbl[2]].write_eof)
+            self._api(self.chan[lbl[1]][lbl[2]].write_eof)
         elif k == 'wdata':
-            p.call(self.chan[lbl[1]][lbl[2]].write, b'd')
+            self._api(self.chan[lbl[1]][lbl[2]].write, b'd')
         elif k == 'pause':
-            p.call(self.chan[lbl[1]][lbl[2]].pause_reading)
+            self._api(self.chan[lbl[1]][lbl[2]].pause_reading)
         elif k == 'resume':
-            p.call(self.chan[lbl[1]][lbl[2]].resume_reading)
+            self._api(self.chan[lbl[1]][lbl[2]].resume_reading)
         elif k == 'close':
             self.closed_by_app.add((lbl[1], lbl[2]))
-            p.call(self.chan[lbl[1]][lbl[2]].close)
+            self._api(self.chan[lbl[1]][lbl[2]].close)
         elif k == 'abort':
             self.closed_by_app.add((lbl[1], lbl[2]))
-            p.call(self.chan[lbl[1]][lbl[2]].abort)
+            self._api(self.chan[lbl[1]][lbl[2]].abort)
         elif k == 'connclose':
-            p.call(conn[lbl[1]].close)
+            self._api(conn[lbl[1]].close)
         elif k == 'connabort':
-            p.call(conn[lbl[1]].abort)
+            self._api(conn[lbl[1]].abort)
         elif k == 'cut':
             def cut():
                 p.ct.cut()
@@ -127,6 +128,18 @@ class World:
         else:
             raise ValueError(lbl)
         return None
+
+    def _api(self, fn, *args):
+        """An application call.  An exception it raises is the call failing
+        with an error (which C09 allows), not an exception escaping into the
+        event loop."""
+        def call():
+            try:
+                fn(*args)
+            except Exception as exc:    # pylint: disable=broad-except
+                self.api_errors.append((getattr(fn, '__name__', '?'),
+                                        type(exc).__name__))
+        self.pair.call(call)
 
     def _deliver(self, x, wants):
         """wants: message kinds the model delivers in this one chunk."""
